@@ -71,7 +71,13 @@ def case_st(draw):
                                             {"prefix": "/mirror/", "strip": False}, {"prefix": "/a/", "strip": True}])),
             "second_first": draw(st.booleans()),
             "up_reply": draw(st.sampled_from(["20", "20", "redirect-lookalike-host", "redirect-lookalike-port", "redirect-self", "redirect-other"])),
+            "companion": draw(st.integers(0, 3)) == 0,  # a second request for the same path with another query, in flight together
             "static_after": draw(st.booleans()), "url": url, "path": path or "/", "query": query, "labels": labels}
+
+
+def _companion_url(case):
+    base = case["url"].split("?", 1)[0]
+    return base + "?companion=" + ("1" if case["query"] != "companion=1" else "2")
 
 
 _static_root = None
@@ -121,19 +127,40 @@ def run_case(case: dict):
                  "redirect-lookalike-port": f"31 {base}0/stolen\r\n".encode(),
                  "redirect-self": f"30 {base}/elsewhere\r\n".encode(),
                  "redirect-other": b"31 gemini://third.example/x\r\n"}[case.get("up_reply", "20")]
-        up = memnet.ScriptedPeer(certs.get("ec-a"), [("wait_request", 1.0), ("send", reply), ("close",)])
+        up = memnet.ScriptedPeer(certs.get("ec-a"), [("wait_request", 1.0), ("sleep", 1.0), ("send", reply), ("close",)])
         net.add(case["up_host"], case["up_port"], up)
         tr = FakeTransport(loop)
         proto = GeminiServerProtocol(router.route, None)
         tr.attach(proto)
         tr.feed(case["url"].encode("utf-8") + b"\r\n")
+        tr2 = None
+        if case.get("companion"):
+            tr2 = FakeTransport(loop, peername=("192.0.2.99", 40001))
+            tr2.attach(GeminiServerProtocol(router.route, None))
+            tr2.feed(_companion_url(case).encode("utf-8") + b"\r\n")
         await vloop.settle(10)
         await asyncio.sleep(30)
         await vloop.settle(5)
         lines = [bytes(c.received) for c in up.conns]
-        return tr.written(), [(h, p) for (h, p, _t) in loop.connection_log], lines
+        return tr.written(), [(h, p) for (h, p, _t) in loop.connection_log], lines, (tr2.written() if tr2 else None)
 
-    S, conns, lines = vloop.run(scenario, horizon=1e6)
+    S, conns, lines, S2 = vloop.run(scenario, horizon=1e6)
+    comp_q = None
+    if case.get("companion"):
+        # the companion is judged by the same rules; here its line is separated from the main request's
+        comp_q = _companion_url(case).split("?", 1)[1]
+        mine, other = [], []
+        for ln in lines:
+            q = ln.split(b"\r\n", 1)[0].decode("utf-8", "replace").partition("?")[2]
+            (other if q == comp_q and len(other) == 0 else mine).append(ln)
+        if S.startswith(b"2") and S2 is not None and S2.startswith(b"2") and len(conns) == 1:
+            return viol("concurrent-requests-share-an-upstream-fetch", f"two requests in flight ({case['url']!r} and {_companion_url(case)!r}) "
+                        f"were both answered 2x but the upstream saw {len(conns)} connection(s): {[b2s(l[:80]) for l in lines]}")
+        if S.startswith(b"2") and S2 is not None and S2.startswith(b"2") and conns and not other:
+            return viol("url-mapped-unfaithfully", f"the companion request {_companion_url(case)!r} never reached the upstream with its own "
+                        f"query; upstream saw {[b2s(l[:80]) for l in lines]}")
+        conns = conns[: len(conns) - len(other)]
+        lines = mine
     info = {"S": b2s(S[:40]), "conns": len(conns), "line": b2s(lines[0][:100]) if lines else None}
     for h, p in conns:
         if (str(h).lower(), p) != (case["up_host"], case["up_port"]):
